@@ -2,10 +2,10 @@ package c14
 
 import (
 	"context"
-	"os"
-	"path/filepath"
 	"errors"
 	"fmt"
+	"os"
+	"path/filepath"
 	"strings"
 	"testing"
 	"time"
